@@ -275,6 +275,12 @@ func credList(r *mrand.Rand, thorough bool) []cred {
 		{"=2C", "x,y", "=2C", "x,y", true, true},
 		{"=2C", "x,y", ",", "x,y", false, true},
 		{"u=", "=", "u=", "=", true, true},
+		// '%' must reach the server untouched (credentials are data, never a format)
+		{"alice", "100%sure", "alice", "100%sure", true, true},
+		{"%s", "%d%%", "%s", "%d%%", true, true},
+		{"a%20b", "pa%20ss", "a%20b", "pa%20ss", true, true},
+		{"%v%!", "%", "%v%!", "%", true, true},
+		{"per%cent", "x", "per%cent", "y", false, true},
 		// SASLprep (RFC 4013 §3 examples): soft hyphen is mapped to nothing, NFKC
 		{"I­X", "pass­word", "IX", "password", true, true},
 		{"Ⅸ", "ª", "IX", "a", true, true},
